@@ -124,11 +124,14 @@ func (f FnGen) Val(kind string, subject string) jv.Val {
 	case "str1":
 		return jv.VStr(Pick(t, "pad", []string{"-", " ", "0", "é", "日", "😀", "", "ab", "--", "éé", "́"}))
 	case "sub":
-		switch rapid.IntRange(0, 4).Draw(t, "subkind") {
+		switch rapid.IntRange(0, 6).Draw(t, "subkind") {
 		case 0:
 			return jv.VStr(Str(t))
 		case 1:
 			return jv.VStr("")
+		case 2:
+			// longer than the subject, or absent from it and several bytes long
+			return jv.VStr(Pick(t, "longsub", []string{subject + "x", "x" + subject, subject + subject, " - ", "::", ".tar.gz", "é😀", "😀😀😀", "--", ", "}))
 		}
 		return jv.VStr(f.substringOf(subject))
 	case "arr-num":
